@@ -210,7 +210,7 @@ def state_writes(fi: FuncInfo) -> List[Tuple[str, ast.AST]]:
                 return
             out.append(("%s:%s%s" % (kind, root.id, mut), node))
 
-    for n in own_nodes(fn):
+    def _classify_node(n):
         if isinstance(n, ast.Assign):
             for t in n.targets:
                 for e in (t.elts if isinstance(t, (ast.Tuple, ast.List)) else [t]):
@@ -234,6 +234,11 @@ def state_writes(fi: FuncInfo) -> List[Tuple[str, ast.AST]]:
             fnm = ast.unparse(n.func)
             if fnm in ("setattr", "delattr", "object.__setattr__", "object.__delattr__") and n.args:
                 out.append(("%s:%s" % (fnm.split(".")[-1].strip("_"), ast.unparse(n.args[0])), n))
+            elif isinstance(n.func, ast.Attribute) and n.func.attr in ("__setitem__", "__delitem__") and n.args:
+                # x.__setitem__(k, v) is the store x[k] = v
+                classify_target(ast.Subscript(value=n.func.value, slice=n.args[0], ctx=ast.Store()), n)
+            elif fnm in ("operator.setitem", "operator.delitem", "setitem", "delitem") and len(n.args) >= 2:
+                classify_target(ast.Subscript(value=n.args[0], slice=n.args[1], ctx=ast.Store()), n)
             elif isinstance(n.func, ast.Attribute) and n.func.attr in MUT_METHODS and isinstance(_root_name(n.func.value), ast.Name) and \
                     (_root_name(n.func.value).id in alias or _root_name(n.func.value).id in galias or (_root_name(n.func.value).id in params_all and _root_name(n.func.value).id not in selfish)):
                 classify_target(n.func.value, n, mut=".%s()" % n.func.attr)
@@ -242,18 +247,51 @@ def state_writes(fi: FuncInfo) -> List[Tuple[str, ast.AST]]:
                 root = _root_name(recv)
                 if isinstance(root, ast.Name) and (root.id in selfish or root.id not in loc) and isinstance(recv, (ast.Attribute, ast.Subscript, ast.Name)):
                     if isinstance(recv, ast.Name) and (recv.id in loc or recv.id in imported):
-                        continue
+                        return
                     if root.id in imported:
-                        continue
+                        return
                     if isinstance(recv, ast.Name) and recv.id not in modlevel and not escapes:
-                        continue
+                        return
                     if isinstance(recv, ast.Name) and recv.id not in modlevel and fi.parent is None:
-                        continue       # an unknown global (builtin/typo): not state of this package
+                        return       # an unknown global (builtin/typo): not state of this package
                     if root.id in selfish and in_ctor:
-                        continue
+                        return
                     classify_target(recv if not isinstance(recv, ast.Name) else recv, n, mut=".%s()" % n.func.attr) if not isinstance(recv, ast.Name) else \
                         out.append(("%s:%s.%s()" % ("global-mut" if recv.id in modlevel else "closure-mut", recv.id, n.func.attr), n))
+    def with_lambdas(root, extra):
+        """own nodes of fn plus the bodies of its lambdas (a lambda is part of the function that writes it); for nodes inside a
+        lambda the lambda's parameters count as parameters"""
+        for x in (own_nodes(root) if not isinstance(root, ast.Lambda) else _walk_lambda(root)):
+            yield x, extra
+            if isinstance(x, ast.Lambda) and x is not root:
+                yield from with_lambdas(x, extra | {a.arg for a in x.args.posonlyargs + x.args.args + x.args.kwonlyargs})
+
+    for n, lam_params in with_lambdas(fn, frozenset()):
+        added = set(lam_params) - params_all
+        params_all.update(added)
+        try:
+            _classify_node(n)
+        finally:
+            params_all.difference_update(added)
     return out
+
+
+def _walk_lambda(lam: ast.Lambda):
+    stack = [lam.body]
+    while stack:
+        x = stack.pop()
+        yield x
+        if isinstance(x, ast.Lambda):
+            continue
+        stack.extend(ast.iter_child_nodes(x))
+
+
+
+def _holder(k: str) -> str:
+    import re as _re
+    k = _re.sub(r" \(via local alias[^)]*\)$", "", k)
+    k = _re.sub(r"\.\w+\(\)$", "", k)
+    return _re.sub(r"\[\]$", "", k)
 
 
 def compute_state_table(model: Model) -> Dict[str, List[str]]:
@@ -280,9 +318,19 @@ def hidden_state(model: Model, R: RuleResult, files: Set[str]) -> int:
             continue
         ws = state_writes(fi)
         allowed = set(table.get(fi.fq, []))
+        # a write that moves between a function and its nested functions (lambda -> def, helper closure) stays with the same holder
+        top = fi
+        while top.parent is not None:
+            top = top.parent
+        if top is not fi or any(g.parent is not None and g.fq.startswith(fi.fq + ".") for g in fi.module.functions.values()):
+            for fq_, ks_ in table.items():
+                if fq_ == top.fq or fq_.startswith(top.fq + "."):
+                    allowed |= set(ks_)
         # a function that moved (renamed nested def etc.) is matched by qualname only
         n += 1
-        bad = [(k, node) for k, node in ws if k not in allowed]
+        # the holder is the attribute / object written; `x[k] = v`, `x.append(v)`, `x.update(..)` are spellings of a write to the same holder
+        allowed_holders = {_holder(k) for k in allowed}
+        bad = [(k, node) for k, node in ws if k not in allowed and _holder(k) not in allowed_holders]
         if bad:
             k, node = bad[0]
             R.bad(fi, enclosing_stmt(node) if not isinstance(node, ast.stmt) else node,
